@@ -239,24 +239,43 @@ func ruleTokenAgreement(w *World, r *RuleResult) {
 	forms := w.formConsts()
 	// writer: Form case -> appended literal (path enumeration over the Form switch)
 	emitted := map[int64]string{}
-	for _, b := range app.Blocks {
-		facts := guardsAt(b)
-		var form int64 = -1
-		for _, g := range facts {
-			if bo, ok := g.Cond.(*ssa.BinOp); ok && bo.Op == token.EQL && g.Val && w.exprOf(app, bo.X).String() == "d.Form" {
+	// in Append itself, or in a helper it was split into that maps a Form to its text
+	for _, af := range w.closureFuncs(app) {
+		for _, b := range af.Blocks {
+			facts := guardsAt(b)
+			var form int64 = -1
+			for _, g := range facts {
+				bo, ok := g.Cond.(*ssa.BinOp)
+				if !ok || bo.Op != token.EQL || !g.Val {
+					continue
+				}
+				isForm := strings.HasSuffix(w.exprOf(af, bo.X).String(), ".Form")
+				if pr, isP := bo.X.(*ssa.Parameter); isP && typeIs(pr.Type(), apdPath, "Form") {
+					isForm = true
+				}
+				if !isForm {
+					continue
+				}
 				if k, ok := bo.Y.(*ssa.Const); ok {
 					form = ci(k)
 				}
 			}
-		}
-		if form < 0 {
-			continue
-		}
-		for _, in := range b.Instrs {
-			if c, ok := in.(*ssa.Call); ok {
-				if bi, ok := c.Common().Value.(*ssa.Builtin); ok && bi.Name() == "append" && len(c.Common().Args) == 2 {
-					if k, ok := c.Common().Args[1].(*ssa.Const); ok && k.Value != nil && k.Value.Kind() == constant.String {
-						emitted[form] = constant.StringVal(k.Value)
+			if form < 0 {
+				continue
+			}
+			for _, in := range b.Instrs {
+				if c, ok := in.(*ssa.Call); ok {
+					if bi, ok := c.Common().Value.(*ssa.Builtin); ok && bi.Name() == "append" && len(c.Common().Args) == 2 {
+						if k, ok := c.Common().Args[1].(*ssa.Const); ok && k.Value != nil && k.Value.Kind() == constant.String {
+							emitted[form] = constant.StringVal(k.Value)
+						}
+					}
+				}
+				if rt, ok := in.(*ssa.Return); ok && af != app {
+					for _, res := range rt.Results {
+						if k, ok := res.(*ssa.Const); ok && k.Value != nil && k.Value.Kind() == constant.String && constant.StringVal(k.Value) != "" {
+							emitted[form] = constant.StringVal(k.Value)
+						}
 					}
 				}
 			}
@@ -299,6 +318,14 @@ func ruleTokenAgreement(w *World, r *RuleResult) {
 						if st, ok := in.(*ssa.Store); ok && w.recvFieldStore(par, st, "Form") {
 							if k, ok := st.Val.(*ssa.Const); ok {
 								return ci(k), true
+							}
+						}
+						// a helper that returns the form it recognised
+						if rt, ok := in.(*ssa.Return); ok {
+							for _, res := range rt.Results {
+								if k, ok := res.(*ssa.Const); ok && typeIs(k.Type(), apdPath, "Form") {
+									return ci(k), true
+								}
 							}
 						}
 					}
